@@ -214,10 +214,22 @@ def expected {α : Type} (r : Row) (env : Env α) : Option (Call α) :=
 
 /-! ### sync / asyncio twins -/
 
+/-- the call of a row with the binders normalised: every argument by keyword, in the target's
+    parameter order (so that passing an argument by position or by keyword, or reordering keyword
+    arguments, is not a difference); a call that cannot be resolved is kept as it is -/
+def Row.normCall (r : Row) : List (Binder × Expr) :=
+  match resolveCall r.targetNames r.call with
+  | none => r.call
+  | some b =>
+    if nodup (b.map (·.1)) then
+      r.targetNames.filterMap (fun tp => (assoc tp b).map (fun e => (Binder.kw tp, e)))
+    else r.call
+
 /-- a row with everything that legitimately differs between the threaded and the asyncio class
-    erased: the class name, `async def`, `await`, whether the target is a coroutine -/
+    erased: the class name, `async def`, `await`, whether the target is a coroutine, and the
+    position-versus-keyword style of the call -/
 def Row.modAwait (r : Row) : Row :=
-  { r with cls := [], isAsync := false, awaited := false, targetAsync := false }
+  { r with cls := [], isAsync := false, awaited := false, targetAsync := false, call := r.normCall }
 
 /-- the one allowed difference: `ClientNamespace.send` has a vestigial `room` parameter that
     `Client.send` does not have (outside the property's claim) -/
